@@ -65,6 +65,10 @@ pub struct C10Plan {
     /// (an `rssi` field per line instead of a `metadata` list)
     #[serde(default)]
     pub legacy: bool,
+    /// decode1090 process scenario only: the lines of this receiver were written
+    /// by another tool, with the frame in upper-case hexadecimal
+    #[serde(default)]
+    pub upper_rx: Option<u8>,
 }
 
 pub struct C10;
@@ -135,7 +139,7 @@ impl Scenario for C10 {
         }
     }
     fn generate(&self, rng: &mut Rng, tier: Tier, _idx: u64) -> C10Plan {
-        let window_ms = *rng.pick(&[0u32, 1, 5, 50, 450, 450, 450, 1000, 5000]);
+        let mut window_ms = *rng.pick(&[0u32, 1, 5, 50, 450, 450, 450, 1000, 5000]);
         let w = window_ms as u64;
         let k = rng.usize(1, 8);
         let frames = gen_frames(rng, k);
@@ -256,6 +260,32 @@ impl Scenario for C10 {
         } else {
             receptions.sort_by_key(|r| (r.at_ns, r.id));
         }
+        let mut frames = frames;
+        let mut mode = mode;
+        if rng.chance(0.003) {
+            // a busy feed: thousands of distinct frames open at the same time (more
+            // than any bound a change might put on the number of open groups),
+            // each heard by two receivers 200 ms apart
+            let k = rng.usize(2100, 5000);
+            window_ms = *rng.pick(&[450u32, 1000, 2000]);
+            frames = (0..k).map(|i| world::hex(&world::df11(0x100000 + i as u32, 5))).collect();
+            receptions.clear();
+            let mut id = 0u32;
+            for pass in 0..2u64 {
+                for i in 0..k {
+                    let ms = base_ms + pass * 200 + (i as u64 * 150) / k as u64;
+                    receptions.push(Reception { id, frame: i as u16, rx: pass as u8, ts_us: ts(ms, rng), at_ns: (ms - base_ms) * 1_000_000 });
+                    id += 1;
+                }
+            }
+            receptions.sort_by_key(|r| (r.ts_us, r.id));
+            let mut at = 0u64;
+            for r in receptions.iter_mut() {
+                at = at.max(r.at_ns);
+                r.at_ns = at;
+            }
+            mode = 0;
+        }
         let n = receptions.len() as u32;
         let mut stalls = Vec::new();
         if rng.chance(0.5) {
@@ -297,6 +327,7 @@ impl Scenario for C10 {
             sched: SchedSpec::generate(rng, 4 * n + 16),
             junk: Vec::new(),
             legacy: false,
+            upper_rx: None,
         }
     }
 
@@ -1089,6 +1120,21 @@ impl Scenario for Decode1090Proc {
             p.junk.sort();
         }
         p.legacy = rng.chance(0.3);
+        if rng.chance(0.3) {
+            p.upper_rx = Some(rng.below(p.n_rx.max(1) as u64) as u8);
+        }
+        if rng.chance(0.01) {
+            // a long recording: more lines than any slice, buffer or 16-bit index
+            let k = p.frames.len().max(1);
+            let n = rng.usize(66_000, 70_000);
+            let mut ms = 100_000u64;
+            p.receptions.clear();
+            for i in 0..n {
+                ms += *rng.pick(&[0u64, 1, 3, 20, 90, 250]);
+                p.receptions.push(Reception { id: i as u32, frame: (if rng.chance(0.5) { i / 2 } else { rng.usize(0, k - 1) } % k) as u16, rx: (i % p.n_rx.max(1) as usize) as u8, ts_us: ts(ms, rng), at_ns: 0 });
+            }
+            p.junk.clear();
+        }
         p
     }
     fn execute(&self, plan: &C10Plan) -> Outcome<C10Plan> {
@@ -1134,7 +1180,7 @@ impl Scenario for Decode1090Proc {
                 ("input file", "stub (written by the driver before the process starts; damaged lines injected: non-UTF-8 bytes, non-JSON text, a line cut short, an empty line, JSON of another shape)"),
             ],
             assumptions: vec!["output timestamps are compared with a tolerance of 10 µs (JSON text round trip)", "a reception on a damaged line is not in the file; every reception on an intact line is"],
-            fault_kinds: vec!["nonmonotone_arrival", "duplicate_delivery", "eof_with_open_groups", "damaged_line", "legacy_format"],
+            fault_kinds: vec!["nonmonotone_arrival", "duplicate_delivery", "eof_with_open_groups", "damaged_line", "legacy_format", "upper_case_hex_line"],
             probes: vec!["records_printed", "monotone_history", "eof_with_3_open_groups", "reopened_after_expiry"],
         }
     }
@@ -1168,16 +1214,21 @@ pub fn execute_decode1090(plan: &C10Plan) -> Outcome<C10Plan> {
             ji += 1;
         }
         let fi = r.frame as usize % frames.len();
+        let upper = plan.upper_rx == Some(r.rx);
+        let frame_text = if upper { plan.frames[fi].to_uppercase() } else { plan.frames[fi].clone() };
+        if upper {
+            out.count("upper_case_hex_line", 1);
+        }
         if plan.legacy {
             // older recordings: no metadata list, an rssi per line (which carries
             // the reception id here: small integers are exact in f32)
-            text.extend_from_slice(format!("{{\"timestamp\":{},\"frame\":\"{}\",\"rssi\":{}.0}}\n", ts_f64(r.ts_us), plan.frames[fi], r.id).as_bytes());
+            text.extend_from_slice(format!("{{\"timestamp\":{},\"frame\":\"{}\",\"rssi\":{}.0}}\n", ts_f64(r.ts_us), frame_text, r.id).as_bytes());
             continue;
         }
         text.extend_from_slice(format!(
             "{{\"timestamp\":{},\"frame\":\"{}\",\"metadata\":[{{\"system_timestamp\":{},\"serial\":{},\"name\":\"rx{}\"}}]}}\n",
             ts_f64(r.ts_us),
-            plan.frames[fi],
+            frame_text,
             ts_f64(r.ts_us),
             r.id,
             r.rx
@@ -1453,6 +1504,7 @@ fn grid_history(len_max: u8, g: u64) -> C10Plan {
         sched: SchedSpec::fifo(),
         junk: Vec::new(),
         legacy: false,
+        upper_rx: None,
     }
 }
 
